@@ -29,8 +29,16 @@ const c07ShortRuns = 48
 func c07Frame(c *sim.Ctx) (frame []byte, fm []ref.Field, valid bool) {
 	t := c.T
 	cfg := specCfg(c)
-	cfg.NoHuge = true
-	a := gen.Packet(t, cfg)
+	a := gen.Packet(t, cfg) // incl. rare multi-megabyte PUBLISH frames
+	if t.Bool(1, 500) {
+		// a multi-megabyte PUBLISH (4-byte remaining length), on purpose
+		n := 2097152 + t.Int(1<<20)
+		if t.Bool(1, 2) {
+			n = 4<<20 + t.Int(1<<20)
+		}
+		g := gen.NewG(t, c.Thorough, 0)
+		a = &ref.AP{Type: ref.Publish, Flags: byte(t.Int(3)) << 1, Topic: []byte("big/one"), PacketID: 9, Payload: g.Bin(n)}
+	}
 	frame, fm = ref.Encode(a)
 	valid = true
 	if t.Bool(1, 4) {
@@ -247,6 +255,27 @@ func runC07(c *sim.Ctx) *sim.Violation {
 			return v
 		}
 	}
+	// (1b) very large frames: 64 KiB segments with long runs of zero-length reads
+	// in front of a few of them (inside the body)
+	if L > 1<<20 {
+		nseg := L/65536 + 1
+		segs := make([]int, nseg)
+		st := make([]int, nseg)
+		for i := range segs {
+			segs[i] = 65536
+		}
+		for j := 0; j < 3; j++ {
+			st[1+t.Int(nseg-1)] = 100 + t.Int(60)
+		}
+		e := ending(t.Int(3))
+		r := link.NewReader(c, streamFor(frame, e), link.Mode{DataEOF: e == endDataEOF}).WithPlan(&link.Plan{Segs: segs, Stutters: st})
+		got := ReadOne(r)
+		sched++
+		c.Count("probe.multi-megabyte-frame-with-100+-zero-length-reads-inside-the-body")
+		if v := c07Compare(c, frame, want, got, r, e, "64KiB segments with long zero-length-read runs,"); v != nil {
+			return v
+		}
+	}
 	// (2) one byte at a time
 	if L <= 4096 || t.Bool(1, 8) {
 		e := ending(t.Int(3))
@@ -285,6 +314,9 @@ func runC07(c *sim.Ctx) *sim.Violation {
 		}
 		if len(offs) > 48 {
 			offs = offs[:48]
+		}
+		if L > 1<<20 && len(offs) > 8 {
+			offs = offs[:8] // each schedule copies megabytes
 		}
 	}
 	for _, k := range offs {
